@@ -1,0 +1,56 @@
+//go:build verif
+
+// Verification contracts (comments only; compiled only with -tags verif).
+// Checked by /verif/bin/govc; see /verif/DESIGN.md.
+
+package best
+
+//@ type Service
+//@   valid self.clientMonitor != nil && self.chainTime != nil && self.signedBeaconBlockProvider != nil && self.blockRootToSlotCache != nil && self.proposalProviders != nil
+//@   valid forall n string :: in(self.proposalProviders, n) ==> self.proposalProviders[n] != nil
+//@
+//@ spec func propFeeOf(v *api.VersionedProposal) bellatrix.ExecutionAddress
+//@ extern (*github.com/attestantio/go-eth2-client/api.VersionedProposal).FeeRecipient
+//@   requires v != nil
+//@   ensures result1 == nil ==> result0 == propFeeOf(v)
+//@
+//@ // C07: the validity rule of this strategy: from Bellatrix on a proposal must name a non-zero fee recipient
+//@ spec func validProposal(p *api.VersionedProposal) bool = p != nil && p.ConsensusValue != nil && p.ExecutionValue != nil && (p.Version != spec.DataVersionPhase0 && p.Version != spec.DataVersionAltair ==> !iszero(propFeeOf(p)))
+//@
+//@ func (*Service).scoreBeaconBlockProposal
+//@   requires blockProposal != nil ==> blockProposal.ConsensusValue != nil && blockProposal.ExecutionValue != nil
+//@   modifies nothing
+//@
+//@ // per-node goroutine: one message on one channel; only valid proposals are passed on
+//@ func (*Service).beaconBlockProposal
+//@   thread
+//@   requires provider != nil && opts != nil && !closed(respCh) && !closed(errCh)
+//@   // go-eth2-client/http/proposal.go initialises both values of a successful answer
+//@   assumes call Proposal#1 (r, err): err == nil ==> r != nil && r.Data != nil && r.Data.ConsensusValue != nil && r.Data.ExecutionValue != nil
+//@   chaninv respCh (m): m != nil && validProposal(m.proposal)
+//@   chaninv errCh (m): m != nil
+//@   exit sends() == 1
+//@
+//@ func (*Service).Proposal
+//@   requires opts != nil
+//@   assumes call NodeClient (r, err): err == nil ==> r != nil
+//@   chaninv respCh (m): m != nil && validProposal(m.proposal)
+//@   chaninv errCh (m): m != nil
+//@   // ghost history of the responses received so far: got[p][x] <=> a response (proposal p, score x) was received
+//@   ghost n Int
+//@   ghost got (Array Int (Array Real Bool))
+//@   requires n == 0 && (forall p int, x float64 :: !got[p][x])
+//@   at recv respCh: ghost n = n + 1
+//@   at recv respCh: ghost got[msg.proposal][msg.score] = true
+//@   loop 2
+//@     invariant n >= 0 && (bestProposal == nil <==> n == 0)
+//@     invariant bestProposal != nil ==> validProposal(bestProposal) && got[bestProposal][bestScore]
+//@     invariant forall p *api.VersionedProposal, x float64 :: got[p][x] ==> x <= bestScore && n > 0
+//@   loop 3
+//@     invariant n >= 0 && (bestProposal == nil <==> n == 0)
+//@     invariant bestProposal != nil ==> validProposal(bestProposal) && got[bestProposal][bestScore]
+//@     invariant forall p *api.VersionedProposal, x float64 :: got[p][x] ==> x <= bestScore && n > 0
+//@   // C07: an error exactly when no valid response was received; otherwise the answer is a valid response that was actually
+//@   // received and no received response scores higher
+//@   ensures result1 != nil <==> n == 0
+//@   ensures result1 == nil ==> result0 != nil && validProposal(result0.Data) && got[result0.Data][bestScore] && (forall p *api.VersionedProposal, x float64 :: got[p][x] ==> x <= bestScore)
